@@ -424,7 +424,123 @@ theorem slotStep_mapS (S : Schema) (n : Nat) (d : MsgD) (k : Nat) (f : FieldD) (
     hlen hks (fun x hx => valStep_scalar S _ f x hmf.vty (hvs x hx)) hdist hsel
     (fun vs' h => by rw [← forall₂_eq vs vs' h]; exact hR f _)
 
+/-! ### message-typed map values -/
+
+/-- field #2 of the entry class (`(entryD f).fields[1]!`, by `rfl`) -/
+def entryValF (f : FieldD) : FieldD :=
+  { name := "value", num := 2, ty := f.mapV, kind := f.mapVKind, enumRef := f.enumRef }
+
+theorem entry_value_sub (f : FieldD) (c : Nat) (hvty : f.mapV = PType.message) (hvk : f.mapVKind = MsgKind.user c) :
+    SubField (entryValF f) c :=
+  ⟨hvty, rfl, hvk, rfl, fun h => by cases h⟩
+
+/-- the value half of an entry holding a message: nothing if the message encodes to
+    nothing (`serialize_empty` is false), else tag #2, length, payload -/
+theorem dumpEntryVal_msg (S : Schema) (f : FieldD) (x : Val) (hvty : f.mapV = PType.message)
+    (hx : ∃ c sl ow unk cur, x = Val.msg c sl ow unk cur) :
+    dumpEntryVal S f x = (dumpVal S x).bind fun p =>
+      if (p.length != 0) = true then .ok (encNat (2 * 8 + 2) ++ encNat p.length ++ p) else .ok [] := by
+  obtain ⟨c, sl, ow, unk, cur, rfl⟩ := hx
+  rw [dumpEntryVal, dumpVal_msg]
+  cases dumpSlots S (fieldsOf S c) cur 0 sl with
+  | error e => rfl
+  | ok body =>
+    simp only [bind_ok]
+    rw [hvty, if_pos (by decide), frame_len _ _ _ _ _ lenT_message]
+    simp only [Bool.or_false]
+
+/-- a message map value: its half of the entry is a length-delimited record, decoded by
+    the nested loader (`RoundTrips`) — or nothing at all, when the message encodes to no
+    byte, and then the entry reads back as a FRESH instance of the class (the default
+    materialised in the unset value slot, `serialized_on_wire` false) -/
+theorem valStep_msg (S : Schema) (rec : Loader) (f : FieldD) (c : Nat) (dc : MsgD) (x : Val) (Rv : Val → Val → Prop)
+    (hvty : f.mapV = PType.message) (hvk : f.mapVKind = MsgKind.user c) (hdc : S[c]? = some dc)
+    (hx : ∃ sl ow unk cur, x = Val.msg c sl ow unk cur) (hrt : RoundTrips S rec x)
+    (hRv1 : ∀ x', ValEqv S x x' → Rv x x') (hRv0 : dumpVal S x = .ok [] → Rv x (fresh S c)) :
+    ValStep S rec f Rv x := by
+  obtain ⟨sl, ow, unk, cur, rfl⟩ := hx
+  have hsf := entry_value_sub f c hvty hvk
+  intro sv hsv hsvl
+  rw [dumpEntryVal_msg S f _ hvty ⟨_, _, _, _, _, rfl⟩] at hsv
+  cases hp : dumpVal S (.msg c sl ow unk cur) with
+  | error e => rw [hp] at hsv; simp at hsv
+  | ok p =>
+    rw [hp] at hsv; simp only [bind_ok] at hsv
+    by_cases hpe : p = []
+    · -- nothing is written
+      subst hpe
+      rw [if_neg (by decide)] at hsv
+      injection hsv with hsv; subst hsv
+      refine ⟨fresh S c, ?_, hRv0 hp, ?_⟩
+      · intro st _ hfr
+        refine ⟨[], st, fun _ h => by simp at h, rfl, rfl, ?_, rfl, fun _ _ => rfl⟩
+        rw [hfr]
+        show defaultOfKind S (entryValF f).defKind = fresh S c
+        rw [sub_defKind _ c hsf rfl]
+        rfl
+      · rw [dumpEntryVal_msg S f (fresh S c) hvty ⟨_, _, _, _, _, rfl⟩, dump_fresh]
+        rfl
+    · -- a record
+      have hpl0 : (p.length != 0) = true := by cases p <;> simp_all
+      rw [if_pos hpl0] at hsv
+      injection hsv with hsv; subst hsv
+      have hpl : p.length < 2 ^ 64 := by simp only [List.length_append] at hsvl; omega
+      obtain ⟨sl', hrec, heqv, hdump'⟩ := hrt c dc sl ow unk cur p rfl hdc hp
+      refine ⟨.msg c sl' true unk cur, ?_, hRv1 _ heqv, ?_⟩
+      · intro st hil hfr
+        have hl := loadField_len 2 p (by decide) hpl []
+        have happly : applyField S rec (entryD f) st
+            { num := 2, wt := 2, vint := 0, payload := p, raw := encNat (2 * 8 + 2) ++ encNat p.length ++ p }
+            = .ok (afterStore st 1 (entryValF f) (.msg c sl' true unk cur)) := by
+          rw [applyField_known_eq S rec (entryD f) st _ 1 (entryValF f) (entry_numsDistinct f) rfl rfl
+            (wireFits_of (entryValF f) 2 (by rw [hsf.ty]; rfl)),
+            decodeValue_len S rec (entryValF f) _ rfl (by rw [hsf.ty]; rfl) (sub_notmap _ c hsf)]
+          simp only
+          rw [postLen_sub S rec (entryValF f) c dc _ hsf hdc, hrec]
+          simp only [bind_ok]
+          exact store_singular_msg S (entryD f) st 1 (entryValF f) c sl' unk cur rfl hil hsf rfl
+            (by rw [hfr]; rfl) (fun g hgg => by cases hgg) (fun g hgg => by cases hgg)
+        refine ⟨[_], _, ?_, ?_, by rw [foldFields, happly]; rfl, ?_, ?_, ?_⟩
+        · intro q hq; simp at hq; subst hq; exact ⟨_, _, hl⟩
+        · simp [joinRaw]
+        · simp only [afterStore]
+          rw [getD_setAt_self _ _ _ hil]
+          rfl
+        · simp [afterStore, setAt]
+        · intro j hj
+          simp only [afterStore]
+          exact getD_setAt_other _ _ _ _ hj
+      · rw [dumpEntryVal_msg S f _ hvty ⟨_, _, _, _, _, rfl⟩, hdump']
+        simp only [bind_ok]
+        rw [if_pos hpl0]
+
+theorem listEqv_of_forall₂ (S : Schema) (xs ys : List Val) (h : List.Forall₂ (fun a b => ValEqv S a b) xs ys) :
+    ListEqv S xs ys := by
+  induction h with
+  | nil => exact ListEqv.nil
+  | cons h1 _ ih => exact ListEqv.cons _ _ _ _ h1 ih
+
+/-- **a map slot with message values**.  SIDE CONDITION `hne`: a value whose encoding is
+    empty must be exactly the fresh instance — the entry of such a value carries no value
+    record, and the decoder materialises `fresh S c` (`serialized_on_wire` FALSE), which
+    `ValEqv` relates to nothing but itself.  See the counterexample below. -/
+theorem slotStep_mapM (S : Schema) (n : Nat) (d : MsgD) (k : Nat) (f : FieldD) (c : Nat) (dc : MsgD) (sel : Bool)
+    (ks vs : List Val)
+    (hd : NumsDistinct d.fields) (hk : d.fields[k]? = some f) (hmf : MapFieldM f c) (hdc : S[c]? = some dc)
+    (hlen : ks.length = vs.length) (hks : ∀ x ∈ ks, scalarOk f.mapK x = true)
+    (hinner : ∀ x ∈ vs, (∃ sl ow unk cur, x = Val.msg c sl ow unk cur) ∧ RoundTrips S (loadInto S n) x)
+    (hne : ∀ x ∈ vs, dumpVal S x = .ok [] → x = fresh S c)
+    (hdist : KeysDistinct ks) (hsel : sel = false) :
+    SlotStep S (loadInto S (n + 1)) d (fun _ v v' => ValEqv S v v') k f false sel (.dict ks vs) :=
+  slotStep_map_gen S n d k f sel ks vs (fun a b => ValEqv S a b) _ hd hk hmf.ty hmf.kty hmf.num hmf.rep hmf.opt hmf.grp
+    hlen hks
+    (fun x hx => valStep_msg S _ f c dc x _ hmf.vty hmf.vk hdc (hinner x hx).1 (hinner x hx).2
+      (fun _ h => h) (fun he => by rw [← hne x hx he]; exact ValEqv.refl x))
+    hdist hsel
+    (fun vs' h => ValEqv.dict ks vs vs' (listEqv_of_forall₂ S vs vs' h))
+
 end Bp
 
 #print axioms Bp.entries_fold
 #print axioms Bp.slotStep_mapS
+#print axioms Bp.slotStep_mapM
